@@ -167,6 +167,29 @@ class StatementExecutor:
                     raise RefError("result count")
                 for n, r in zip(stmt.assignees, res):
                     self.env[n] = r
+        elif k == "AssignImplicit":
+            # an implicit solve is an external computation: its results are a deterministic function of the solver id,
+            # the shape of the equations (unknowns as place-holders) and the *values* of everything they mention, so
+            # that renaming a variable does not change it while reading another value or storing elsewhere does
+            import hashlib
+            import json
+            from fractions import Fraction
+            unknowns = {n: k_ for k_, n in enumerate(stmt.solve_variables)}
+
+            def shape(t):
+                if t[0] == "var":
+                    if t[1] in unknowns:
+                        return ["unknown", unknowns[t[1]]]
+                    if t[1].startswith(("<func>", "<builtin>")):
+                        return t
+                    return ["value", repr(snapshot_value(ev(t)))]
+                return T.rebuild(t, [shape(c) for c in T.children(t)])
+            key = [str(stmt.solver_id), [shape(T.from_pymbolic(e)) for e in stmt.expressions],
+                   sorted((n, repr(snapshot_value(ev(T.from_pymbolic(v))))) for n, v in stmt.other_params.items())]
+            self.calls.append(("<implicit>", (json.dumps(key, sort_keys=True, default=repr),), ()))
+            h = hashlib.sha256(json.dumps(key, sort_keys=True, default=repr).encode()).digest()
+            for k_, n in enumerate(stmt.assignees):
+                self.env[n] = Fraction(h[k_] % 16 - 8, 4)
         elif k == "YieldState":
             val = ev(T.from_pymbolic(stmt.expression))
             t = ev(T.from_pymbolic(stmt.time))
